@@ -188,6 +188,33 @@ func runC15(o *Out, r *rand.Rand, thorough bool, _ []string) {
 	for _, e := range edges {
 		emitDec("edge", e)
 	}
+	// 2b. crafted varints: small lengths encoded in 1..6 bytes (non-minimal forms), with spare high bits of the
+	// last byte set (32-bit overflow whose low bits are a plausible length), followed by length-1, length, length+1 bytes
+	for k := 1; k <= 6; k++ {
+		for _, v := range []int{0, 1, 2, 5, 17} {
+			for _, hi := range []byte{0x00, 0x10, 0x20, 0x40, 0x70, 0x08} {
+				hdr := make([]byte, k)
+				x := v
+				for j := 0; j < k; j++ {
+					hdr[j] = byte(x&0x7f) | 0x80
+					x >>= 7
+				}
+				hdr[k-1] = (hdr[k-1] & 0x7f) | hi
+				if hdr[k-1]&0x80 != 0 {
+					continue
+				}
+				for _, d := range []int{v - 1, v, v + 1, v + 4} {
+					if d < 0 {
+						continue
+					}
+					b := append(append([]byte{}, hdr...), genBytes(d, k+v)...)
+					emitDec("craft", b)
+					// and the same item in the middle of a stream
+					emitDec("craft", append(append([]byte{2, 7, 7}, b...), 1, 9))
+				}
+			}
+		}
+	}
 	// 3. random byte strings biased to continuation bytes and small lengths
 	for i := 0; i < nRand; i++ {
 		n := r.Intn(24)
